@@ -12,6 +12,10 @@ CLAIMS = {
  'C07': ("exploration", "3.7", "Seeded histories of enter/leave/group_async/notify/wait over 1-2 groups; wait==0 and notify delivery are judged against the lower bound L(t)=enters returned - leaves called, time-outs against the simulated clock, exactly-once and nothing-left-behind at quiescence, group reuse."),
  'C08': ("exploration", "3.8", "Seeded histories of wait (forever/timed/poll) and signal on one semaphore with time-outs placed to race signals: successes <= v + signals started at every return, time-out not before the deadline, lost-signal and exact permit conservation at the end."),
  'C09': ("exploration", "3.9", "2-8 racing callers per predicate under seeded schedules: initialiser count == 1, no return before its end, nobody left blocked, later calls do not run it."),
+ 'C10': ("exploration", "3.10", "dispatch_apply with n in {0,1,2,..,CPU+-1,17,64,1000} on AUTO/global/serial/concurrent/chained queues, nested to depth 3, issued from client threads and from items, CPU count 1-8, under seeded schedules: per-index counters all 1, no index >= n, return after every invocation ended, index order on serial-bottomed queues, barrier rules on concurrent queues."),
+ 'C11': ("exploration", "3.11", "1-40 pending timers on the three clocks plus dispatch_after, re-configured, suspended and cancelled from handlers and other threads, under seeded schedules, time warps and wall-clock steps: never early against the clock's high-water mark, cumulative data <= interval boundaries passed, exactly once for dispatch_after, every armed timer fires within 60 simulated s of its start being reached."),
+ 'C15': ("exploration", "3.15", "DATA_ADD/OR/REPLACE sources on serial/concurrent/global targets with 2-5 merging threads, merges from the handler and suspended bursts: sums/unions equal at quiescence, delivered REPLACE values were merged and a non-overlapped final merge is last, never 0, handler never re-entered."),
+ 'C19': ("exploration", "3.19", "One block object per run with random flags, submitted through async/sync/group_async/barrier_async/direct invocation, with a waiter, notifiers, cancellers (before submit, while queued behind a held item, at a random instant, from its own body) and testcancel pollers on separate threads under seeded schedules."),
  'C04': ("exploration", "3.4", "One concurrent queue (optionally narrowed / chained) with readers, barriers and apply under seeded schedules; barrier exclusion and before/after ordering from stamps."),
 }
 TECH = "deterministic simulation: real libdispatch threads serialised by a seeded baton scheduler (walk/PCT/stall strategies) with simulated clocks/futex/semaphores and injected faults; history oracles; ddmin-minimised replay tapes"
